@@ -519,42 +519,62 @@ var c11Rd *c11Readers
 // thorough = the full product (plus the Git-level slice).
 func c11InprocCase(x *vx.X, thorough bool) c11Case {
 	var c c11Case
-	nslice := 5
-	if thorough {
-		nslice = 2
+	// the [section.subsection] spelling only exists for subsections made of [a-z0-9.-]
+	nSpell := func(k c11Key) int {
+		if k.HasSub && c11ReDottedOK.MatchString(k.Sub) {
+			return len(c11Spellings)
+		}
+		return len(c11Spellings) - 1
 	}
-	slice := x.In(nslice)
+	isLevelKey := func(k c11Key) bool {
+		cn := k.Canon()
+		return c11Documented(cn) || k.Sec == "remote" || strings.HasPrefix(cn, "lfs.extension.")
+	}
 	if thorough {
-		// 0 = full product with gitside in {absent, local}; 1 = Git-level slice
-		if slice == 1 {
-			slice = 4
-		} else {
+		// 0 = full product with gitside in {absent, local}; 1 = Git-level slice (every level x every location)
+		if x.In(2) == 0 {
 			c.Key = c11Keys[x.In(len(c11Keys))]
-			c.Spelling = x.In(len(c11Spellings))
+			c.Spelling = x.In(nSpell(c.Key))
 			c.Mult = x.In(len(c11Mults))
 			c.Loc = x.In(len(c11Locs))
 			c.GitSide = x.In(2)
 			return c
 		}
+		sub := c11LevelKeys()
+		c.Key = sub[x.In(len(sub))]
+		c.GitSide = 1 + x.In(len(c11GitSides)-1)
+		c.Loc = x.In(len(c11Locs))
+		return c
 	}
-	switch slice {
+	switch x.In(5) {
 	case 0: // every key at every location
 		c.Key = c11Keys[x.In(len(c11Keys))]
 		c.Loc = x.In(len(c11Locs))
 	case 1: // every key in every non-default spelling
 		c.Key = c11Keys[x.In(len(c11Keys))]
-		c.Spelling = 1 + x.In(len(c11Spellings)-1)
-	case 2: // every key in every non-default multiplicity
+		c.Spelling = 1 + x.In(nSpell(c.Key)-1)
+	case 2: // every key in every non-default multiplicity (the garbage-line variant only for the level-slice keys:
+		// it makes `git config` fail as a whole, whatever the key)
 		c.Key = c11Keys[x.In(len(c11Keys))]
-		c.Mult = 1 + x.In(len(c11Mults)-1)
+		n := len(c11Mults) - 2
+		if isLevelKey(c.Key) {
+			n++
+		}
+		c.Mult = 1 + x.In(n)
 	case 3: // every key also set in Git's local configuration
 		c.Key = c11Keys[x.In(len(c11Keys))]
 		c.GitSide = 1
-	case 4: // keys of the documented list and of the remote/extension families x every Git level x every location
+	case 4: // documented / remote.* / lfs.extension.* keys: every Git level at the worktree location, Git-local at the other locations
 		sub := c11LevelKeys()
 		c.Key = sub[x.In(len(sub))]
-		c.GitSide = 1 + x.In(len(c11GitSides)-1)
-		c.Loc = x.In(len(c11Locs))
+		nl := len(c11GitSides) - 1
+		v := x.In(nl + len(c11Locs) - 1)
+		if v < nl {
+			c.GitSide = 1 + v
+		} else {
+			c.GitSide = 1
+			c.Loc = 1 + v - nl
+		}
 	}
 	return c
 }
@@ -971,7 +991,7 @@ func TestVerifC11(t *testing.T) {
 		"{single, duplicated, next to a safe key, via [include], injected through a newline in a safe key's value, followed by a garbage line} at one location " +
 		"{worktree file, index only, HEAD only, bare HEAD} with the same key absent/present at one level of Git's own configuration {local, global, GIT_CONFIG_COUNT env, included file, worktree config}; " +
 		"loaded by the real config.New() in a process whose cwd is the repository and observed through Git.All(), Extensions(), Remotes(), Remote()/PushRemote(), the real endpoint finder and tq manifest. " +
-		"quick = union of axis-aligned slices (all keys x locations; all keys x spellings; all keys x multiplicities; all keys x Git-local; documented/remote/extension keys x Git levels x locations), thorough = full product. " +
+		"quick = union of axis-aligned slices (all keys x 4 locations; all keys x applicable spellings; all keys x multiplicities [garbage-line variant: level keys only]; all keys x Git-local; documented/remote.*/lfs.extension.* keys x (5 Git levels at worktree + Git-local at the 3 other locations)), thorough = full product keys x spellings x multiplicities x locations x {absent, Git-local} + level keys x 5 levels x 4 locations. " +
 		"e2e: one case = one hostile key group (or all groups together) placed in .lfsconfig / in Git's own config (control) / in both, at one location, then a fixed script of real git-lfs commands " +
 		"(env, add via filter-process, push, fetch, pull, locks, smudge, install --local, ext list) against a good and an evil fake LFS server with sentinel programs. " +
 		"distinct_nontrivial = distinct cases in which the .lfsconfig was demonstrably parsed by git-lfs (its key was reported as ignored, or a value of it reached the environment)"
